@@ -62,7 +62,7 @@ var c33Repo = c33Config{
 	// floors: the family and the per-argument rules equal today's counts; rules counted per call site sit below today's counts
 	// (37 / 28 / 16 / 21 / 13 / 11) because merging the two compile call sites of a node or dropping the dead cache fields of
 	// REGEXP_REPLACE is a legitimate refactor
-	FloorFamily: 4, FloorG1: 21, FloorG2: 19, FloorSlot: 8, FloorG3: 14, FloorG3c: 16, FloorS1: 7, FloorG5: 11, FloorG6: 11, FloorG7: 7,
+	FloorFamily: 4, FloorG1: 21, FloorG2: 19, FloorSlot: 8, FloorG3: 14, FloorG3c: 16, FloorS1: 7, FloorG5: 11, FloorG6: 11, FloorG7: 10,
 }
 
 func init() {
@@ -86,16 +86,17 @@ func init() {
 			"of the value is dominated by the non-nil edge; (G3c) every matcher method call through a node's matcher field is dominated by the non-nil edge of a test of that field with no store or recompile in between, and in Eval " +
 			"the nil edge (NULL pattern or NULL match_type) returns the literal (nil, nil). " +
 			"(S1) every string handed to the matcher (pattern, subject, replacement) is derived from the evaluated SQL argument through the to-text conversion AND an unwrap step (sql.Unwrap / sql.UnwrapAny) on every " +
-			"derivation path: the conversion returns lazily loaded text wrappers unchanged, so a sibling without the unwrap step fails where the others match. " +
+			"derivation path, and through no other call (no trimming, case folding, concatenation in one sibling): the conversion returns lazily loaded text wrappers unchanged, so a sibling without the unwrap step fails where the others match. " +
 			"(G5) every integer handed to the matcher (position, occurrence) is the evaluated SQL argument with conversions only - no arithmetic in the wrapper, the 1-based/0-based conversion happens in exactly one place, " +
 			"the matcher - or a constant within the frozen table (Matches(0, <=1)); position and occurrence come from fields of the same name in every sibling and are different fields. " +
 			"(G6) match_type: every non-constant string that reaches the flag-interpreting loop of H is result 0 of one package-local validator; the validator's switch over the characters ends in a default arm that returns a " +
 			"constructed error on every path; every flag character the validator lets through is interpreted by an arm of H's switch, constant defaults consist of interpreted characters, and the arms set pairwise different non-zero flag constants. " +
 			"(G7) caches: the nodes keep a computed result and a compiled matcher across rows under bool fields assigned from calls of one package predicate over receiver fields (conjunctions of such calls and of other flags). " +
 			"Every store of the kept result happens under a flag whose calls name every argument field that is evaluated in Eval or evaluated by H (pattern, match_type); every store of a freshly compiled matcher that is conditional on a flag " +
-			"(compile once if the flag holds / recompile per row if it does not) is under a flag that names the pattern and match_type fields. A missing argument makes the value of the first row the answer for every row, in this sibling only.",
+			"(compile once if the flag holds / recompile per row if it does not) is under a flag that names the pattern and match_type fields, and a node that compiles under a flag also compiles under its negation (otherwise one of the two kinds of pattern is never compiled and the node answers NULL). A missing argument makes the value of the first row the answer for every row, in this sibling only.",
 		NotCovered: "what a pattern matches: that ICU's matches equal a reference engine, the values of positions / occurrences / substrings, that REGEXP_REPLACE substitutes exactly the matches REGEXP_INSTR reports (all computed at run time by ICU through cgo); " +
 			"the offset arithmetic inside github.com/dolthub/go-icu-regex (read once to freeze the constant-argument table, not analysed); the meaning of each flag constant (n -> DOTALL etc. is not compared with MySQL); " +
+			"the boolean end-index argument of REGEXP_INSTR (return_option = 1) and every other value-level choice (result 0/1 of REGEXP_LIKE, collation suffix test); arguments evaluated through a helper function instead of directly in Eval are not followed (the rules would report them as not derived from an evaluated argument); " +
 			"range validation of position / occurrence (REGEXP_REPLACE rejects position < 1 and position > length in the wrapper, REGEXP_INSTR / REGEXP_SUBSTR leave both to the matcher, which answers 'no match': a disagreement that is visible but not claimed); " +
 			"that an error stored in the cached-error field is not overwritten by a later call of the storing function before Eval reads it (needs the correlation with the cacheRegex flag); errors of other callees (argument evaluation, conversions) which follow the same idiom but are not sources here; " +
 			"release of the matcher (Close/Dispose pairing): at the pinned go-icu-regex version the C memory is also released by runtime.AddCleanup and Close is idempotent, so a leak or a double close does not change any REGEXP_* result and is not a necessary condition of this property; " +
